@@ -231,6 +231,10 @@ class Report:
         # pinned tree, what the rule looks for may live in that helper, which the rule does not read. Unless the rule
         # says it has followed helpers itself (strict=True), the verdict is `inconclusive`, never a violation — the
         # benign direction for everything unresolved.
+        # the generic bug-class detectors (`<ID>.G …`) are flow rules about one construct (a stale guard, an exhausted
+        # iterator, a truth-tested expression node …), not about where in a function a clause sits: they stay armed
+        if ".G " in rule:
+            strict = True
         if not strict and function and _INDEX is not None:
             table = _known_table()
             last = function.rsplit(".", 1)[-1]
